@@ -37,6 +37,16 @@ func c14Gen(seed uint64, i int, ntexts int) *c14Case {
 	}
 	re := rg.Regex(2 + i%2)
 	p := &gen.Program{Commands: []gen.Command{{Amount: gen.Amount{Kind: "all"}, Body: []gen.Node{re}}}}
+	if rng.Chance(1, 3) {
+		// a stored pattern that happens to carry the name of one of the regex's named groups (never referenced as
+		// a pattern): inside the regex the name means the group
+		for _, nm := range rg.Names {
+			if nm[0] != '_' {
+				p.Globals = append(p.Globals, gen.Global{Name: nm, Body: []gen.Node{gen.Lit{S: []string{"q", "a", "ab"}[rng.Intn(3)]}}})
+				break
+			}
+		}
+	}
 	src := gen.RenderProgram(p)
 	alpha := []byte("abc\n 1dA-.*+?|()[]{}^$")
 	sm := gen.NewSampler(rng, p, alpha)
@@ -93,7 +103,7 @@ func C14(r *drv.Run) {
 	if !quick(r) {
 		n, ntext = 150000, 16
 	}
-	r.Rule = "generated regexes of the stated subset (literals, ., bracket classes with ranges and negation, \\d \\D \\s \\S, plain/non-capturing/named groups, * + ? {m} {m,} {m,n} and lazy forms, alternations whose operands are single quantified atoms or groups, ^ $ at the ends, numbered and named back-references to closed groups, one case in eight with 9..12 groups and two-digit back-references; repeated bodies non-nullable), <= ~12 nodes; texts <= 14 ASCII bytes without \\r and \\f derived from the regex; a third of the cases compiled right after another source in the same process (one that fails after opening regex groups, or one with several groups). Oracle 1: Go regexp given the SAME source, evaluated position by position (spans and group texts) when the regex has no back-reference. Oracle 2: reference backtracker on the harness's own translation (always; the only oracle for back-references). Non-trivial = >= 1 match expected AND VM backtracked; distinct by (regex, text)."
+	r.Rule = "generated regexes of the stated subset (literals, ., bracket classes with ranges and negation, \\d \\D \\s \\S, plain/non-capturing/named groups, * + ? {m} {m,} {m,n} and lazy forms, alternations whose operands are single quantified atoms or groups, ^ $ at the ends, numbered and named back-references to closed groups, one case in eight with 9..12 groups and two-digit back-references; sometimes an unrelated stored pattern of the same name as a named group earlier in the source; repeated bodies non-nullable), <= ~12 nodes; texts <= 14 ASCII bytes without \\r and \\f derived from the regex; a third of the cases compiled right after another source in the same process (one that fails after opening regex groups, or one with several groups). Oracle 1: Go regexp given the SAME source, evaluated position by position (spans and group texts) when the regex has no back-reference. Oracle 2: reference backtracker on the harness's own translation (always; the only oracle for back-references). Non-trivial = >= 1 match expected AND VM backtracked; distinct by (regex, text)."
 	r.Assumptions = []string{
 		"Go regexp (leftmost-first) is the conventional backtracking engine on the back-reference-free subset; for back-references the harness reference matcher is",
 		"when a regex mixes named and numbered capturing groups only named back-references are generated (vore numbers only the unnamed groups, a conventional engine numbers all of them); group texts are compared by position of the opening parenthesis",
@@ -110,7 +120,7 @@ func C14(r *drv.Run) {
 	})
 	if r.NViolations() == 0 {
 		expensiveFloor(r)
-		for _, k := range []string{"go_regexp_compared", "backref_cases", "group_texts_compared", "named_group_cases", "named_backref_cases", "two_digit_backref_cases"} {
+		for _, k := range []string{"go_regexp_compared", "backref_cases", "group_texts_compared", "named_group_cases", "named_backref_cases", "two_digit_backref_cases", "named_backref_cases_with_same_named_stored_pattern"} {
 			if r.Counter(k) == 0 {
 				r.Inconclusive("coverage floor: " + k + " = 0")
 			}
@@ -142,6 +152,9 @@ func c14Check(r *drv.Run, cs *c14Case, c *wire.Case, res *wire.Result) {
 	}
 	if cs.rg.ManyGroups && cs.rg.NGroups >= 10 {
 		r.Count("two_digit_backref_cases", 1)
+	}
+	if len(cs.prog.Globals) > 0 && cs.rg.HasBackRef {
+		r.Count("named_backref_cases_with_same_named_stored_pattern", 1)
 	}
 	if cs.rg.Mixed && cs.rg.NGroups > 1 {
 		r.Count("mixed_named_and_numbered_cases", 1)
